@@ -12,7 +12,7 @@ checks, na = [], []
 for p in props:
     pid = p["id"]
     r = REG.get(pid)
-    if r and r.get("claimed") and os.path.exists(os.path.join(ROOT, "harness", pid + ".py")):
+    if r and r.get("claimed") and pid in REG.get("_ready", []) and os.path.exists(os.path.join(ROOT, "harness", pid + ".py")):
         c = {"property_id": pid,
              "quick_cmd": "python3 bin/check.py %s --tier quick" % pid,
              "thorough_cmd": "python3 bin/check.py %s --tier thorough" % pid,
